@@ -35,7 +35,9 @@ RULE = ("measure: every T in 0..60 (130 thorough) x sampling period none,1..12 (
         "(rotating subset in quick) on a logging mock stepper with scripted n, plus random larger T/f incl. f > T; "
         "temper: every T in 0..60 (100) x swap period 1..12 (16) x sampling period 1..12 (16), 1..5 mock replicas with "
         "scripted n and scripted swap decisions, serial driver on all and parallel driver on a third (all in thorough), "
-        "plus random cases with periods > T, 0..8 replicas; ising: real QmcIsingGraph samplers / tempering containers "
+        "plus the swap-period boundary s in {T-1,T,T+1,2T} x f dividing T x both drivers (T <= 24/48; half with every exchange "
+        "accepted) and random cases with periods > T, 0..8 replicas; every temper case also against an identically built "
+        "reference container driven in lock step (samples, final arrangement, total_swaps, last sample); ising: real QmcIsingGraph samplers / tempering containers "
         "against a clone advanced one step at a time (two thirds of the tempering cases with a Hamiltonian ladder: |J|, Gamma, |h| "
         "scaled per slot, offsets captured at construction, get_offset() of every slot checked after every step); generic: real generic Qmc samplers with a non-zero energy offset of either "
         "sign (built with make_*_interaction_and_offset and by into_qmc, with and without longitudinal field) through "
